@@ -28,9 +28,17 @@ that are exactly parallel in the base are only compared under exact maps (axis p
 powers of two): a rotated image is no longer exactly parallel and its true distance is a different number (0), so a discrepancy
 there is not a violation (counted as undecided).
 
+Tolerances are taken literally from the property texts (k*L, L = max(1, largest feature size or centre distance), for scaled scenes
+the larger of the two scenes' k*L) plus 64 ulp of the largest coordinate.  MPR's depth is compared as a scalar output although MPR does
+not compute a unique optimum (its direction comes from the portal); EPA is run on the simplex of gjk_distance_jolt exactly as in
+bounded/c07.py (np.empty primed with zeros, so the result is deterministic).
+
+Development aids (environment): D3VC_ONLY=<fnmatch on the distance function name> (primitives only), D3VC_C12_PART=prim|col,
+D3VC_C12_DUMP=<file> (all failure records; the JSON line keeps 60), D3VC_REPO=<scratch copy of the library> (mutant runs).
+
     cd /verif && .venv/bin/python bounded/c12.py --tier quick|thorough --seed N
 """
-import fnmatch
+import inspect
 import math
 import os
 import sys
@@ -46,7 +54,6 @@ import c10 as K
 from c10 import nrm, ca, EPSF, EXACT
 
 D = K.D
-import inspect
 HAS_EPS = {name: ("epsilon" in inspect.signature(getattr(D, name)).parameters) for name, _, _ in K.FUNCS}
 
 OBL_RIGID, OBL_PERM, OBL_TRANS, OBL_SCALE, OBL_SWAP = ("rigid_motion_invariance", "axis_permutation_invariance",
@@ -360,7 +367,7 @@ def check_scene(fname, k1, k2, A, B, tag, rng, tier, out):
         elif fname in POINT_UNIQUE and not swap:
             # the closest point of a convex primitive to a point is unique; two delta-optimal answers are within
             # 2*sqrt(2 d delta + delta^2) (+ membership slack 1e-9*L each) of each other
-            delta = 1e-6 * max(L2, s * L0)
+            delta = 3e-6 * max(L2, s * L0)          # d within 1e-6*L of the optimum, |x - p| within 1e-6*L of d, p within 1e-9*L of K
             ptol = 2.0 * math.sqrt(2.0 * max(d2, s * d0) * delta + delta * delta) + 2e-9 * max(L2, s * L0) + 2.0 * delta + ulp
             exp = Q @ (s * p20) + v
             if nrm(p22 - exp) > ptol:
@@ -407,7 +414,7 @@ def _worker_prim(task):
         out["digests"].add(dg)
         if ncmp > 0 and K.nontrivial(A, B, d0, K.scene_L(A, B)):
             out["nontrivial"].add(dg)
-        cls = "/".join(tag.split("/")[:3])
+        cls = "/".join(tag.split("/")[:2])
         out["classes"][cls] = out["classes"].get(cls, 0) + 1
         if i == 1 and chunk == 0:
             out["samples"].append(dict(function=fname, placement=tag, primitive1=K.describe(A), primitive2=K.describe(B), d_base=d0,
@@ -427,7 +434,7 @@ SIZE_CLASSES = [(1.0, 1.0), (1.0, 1.0), (0.25, 1.0), (1.0, 0.25), (4.0, 1.0), (0
 def col_specs(seed, tier):
     rng = np.random.default_rng([seed, 12, 777])
     specs = []
-    reps = 1 if tier == "quick" else 6
+    reps = 2 if tier == "quick" else 8
     for kA in C.COLLIDER_TYPES:
         for kB in C.COLLIDER_TYPES:
             for r in range(reps):
@@ -606,7 +613,7 @@ def _worker_col(task):
                                         "(margin 2*delta, delta = 1e-3*L)" % (name, base[name], img[name], truth0)))
             # closest points: unique on the sphere side when the pair is separated
             if "gjk.gjk" in base and "gjk.gjk" in img and min(base["gjk.gjk"], img["gjk.gjk"] / s) > 1e-3 * L0:
-                delta = 1e-5 * Lc
+                delta = 3e-5 * Lc
                 for side, kind, size in (("_a", kA, sA), ("_b", kB, sB)):
                     if kind != "sphere":
                         continue
@@ -707,6 +714,22 @@ DOMAIN = ("PART 1: 34 functions of distance3d.distance x base scenes: 50% bounde
           "when both runs report success (1e-6*L).")
 
 
+def order_all(fails):
+    """round robin over (query family, obligation) - distance primitives first - so that the 60-entry cut of emit() shows every
+    family of failing names; within a family the instances keep their (deterministic) task order"""
+    groups = {}
+    for f in fails:
+        fam = f["contract"].split("[")[0]
+        groups.setdefault((0 if fam.startswith("distance.") else 1, fam, f["obligation"]), []).append(f)
+    out, r = [], 0
+    while True:
+        row = [g[r] for _, g in sorted(groups.items()) if len(g) > r]
+        if not row:
+            return out
+        out += row
+        r += 1
+
+
 def main():
     a = C.args()
     t0 = time.time()
@@ -715,7 +738,7 @@ def main():
     part = os.environ.get("D3VC_C12_PART", "all")
     fis = K.selected_functions() if part in ("all", "prim") else []
     do_col = part in ("all", "col") and not os.environ.get("D3VC_ONLY")
-    per_fn = 1500 if quick else 24000
+    per_fn = 2500 if quick else 30000
     chunk_n = 250 if quick else 1000
     tasks = []
     specs = col_specs(a.seed, a.tier) if do_col else []
@@ -780,7 +803,7 @@ def main():
         for (cn, ob), v in r["fail_counts"].items():
             key = "%s|%s" % (("distance." + cn) if r["part"] == "prim" else cn, ob)
             counts[key] = counts.get(key, 0) + v
-    ordered, _ = K.order_failures(fails, per_pair=2)
+    ordered = order_all(fails)
     if os.environ.get("D3VC_C12_DUMP"):                    # development aid: emit() keeps 60 failures, this keeps all of them
         import json
         with open(os.environ["D3VC_C12_DUMP"], "w") as fh:
